@@ -416,3 +416,103 @@ func (r *Run) RequireAtStoreAnyPath(rule, fnRef, storePat string, min int, q Req
 		r.Fail(rule, fmt.Sprintf("%s: stores matching %s", fnRef, storePat), r.P.Pos(fn.Pos()), fmt.Sprintf("anchor-unresolved: expected >= %d store(s), found %d", min, n))
 	}
 }
+
+// ShapeCase: an exit that returns a value matching Returns under facts matching When
+// ("" = unconditional).
+type ShapeCase struct{ When, Returns string }
+
+// ReturnShape: the value-returning function fnRef has exactly the given exits
+// (result index k): every return matches exactly one case and every case is used.
+func (r *Run) ReturnShape(rule, fnRef string, k int, cases ...ShapeCase) {
+	fn := r.fn(rule, fnRef)
+	if fn == nil {
+		return
+	}
+	ff := r.P.Facts(fn)
+	used := make([]bool, len(cases))
+	for _, b := range fn.Blocks {
+		if len(b.Instrs) == 0 {
+			continue
+		}
+		ret, ok := b.Instrs[len(b.Instrs)-1].(*ssa.Return)
+		if !ok || k >= len(ret.Results) {
+			continue
+		}
+		// expand φ results per incoming edge
+		type alt struct {
+			val   string
+			facts []string
+		}
+		var alts []alt
+		base := func(bb *ssa.BasicBlock) []string {
+			var fs []string
+			for _, a := range ff.Must(bb) {
+				fs = append(fs, a.S)
+			}
+			return fs
+		}
+		if phi, ok := ret.Results[k].(*ssa.Phi); ok && phi.Block() == b {
+			for i, e := range phi.Edges {
+				pb := b.Preds[i]
+				alts = append(alts, alt{ff.Term(e), append(base(pb), ff.edgeAtoms(pb, b)...)})
+			}
+		} else {
+			alts = append(alts, alt{ff.Term(ret.Results[k]), base(b)})
+		}
+		for _, a := range alts {
+			m := -1
+			for ci, c := range cases {
+				if !glob(c.Returns, a.val) {
+					continue
+				}
+				if c.When != "" {
+					if _, ok := matchAny([]string{c.When}, a.facts); !ok {
+						continue
+					}
+				}
+				m = ci
+				break
+			}
+			if m < 0 {
+				r.Check(rule, fnRef+": unexpected return "+trunc(a.val, 100), r.P.Pos(ret.Pos()), false, "return value/guard not in the documented shape; facts: "+trunc(strings.Join(a.facts, " ; "), 300))
+			} else {
+				used[m] = true
+				r.Check(rule, fnRef+": returns "+trunc(cases[m].Returns, 80)+" when "+trunc(cases[m].When, 80), r.P.Pos(ret.Pos()), true, a.val)
+			}
+		}
+	}
+	for ci, c := range cases {
+		if !used[ci] {
+			r.Check(rule, fnRef+": documented case "+trunc(c.Returns, 80)+" when "+trunc(c.When, 60), r.P.Pos(fn.Pos()), false, "no return of this shape exists")
+		}
+	}
+}
+
+// RejectsAre: every reject exit of fnRef returns an error matching one of pats.
+func (r *Run) RejectsAre(rule, fnRef string, min int, pats ...string) {
+	fn := r.fn(rule, fnRef)
+	if fn == nil {
+		return
+	}
+	ff := r.P.Facts(fn)
+	n := 0
+	for _, ex := range ff.Exits() {
+		if ex.Kind == ExitSuccess {
+			continue
+		}
+		if ex.Kind == ExitPanic {
+			continue
+		}
+		n++
+		ok := false
+		for _, p := range pats {
+			if glob(p, ex.Desc) {
+				ok = true
+			}
+		}
+		r.Check(rule, fnRef+": error return "+trunc(ex.Desc, 90), r.P.Pos(ex.Pos), ok, fmt.Sprintf("returned error is not of the required class %v", pats))
+	}
+	if n < min {
+		r.Fail(rule, fnRef+": error returns", r.P.Pos(fn.Pos()), fmt.Sprintf("expected >= %d error returns, found %d", min, n))
+	}
+}
